@@ -46,8 +46,16 @@ TSummary ==
   /\ Rec[l].gens >= Rec[l].calls
   /\ UNCHANGED <<drawn, gens>>
 
+\* volume run: `count` generator fingerprints of the cheapest entry point, merged over all processes and threads;
+\* FreshGenerators at that volume is "all distinct" (the merge is done by the orchestration script, the verdict here)
+TGenBulk ==
+  /\ IsEvent("GenBulk")
+  /\ Rec[l].count > 0
+  /\ Rec[l].distinct = Rec[l].count
+  /\ UNCHANGED <<drawn, gens>>
+
 TraceInit == l = 1 /\ drawn = {} /\ gens = {}
-TraceNext == TCall \/ TGen \/ TSummary
+TraceNext == TCall \/ TGen \/ TSummary \/ TGenBulk
 TraceSpec == TraceInit /\ [][TraceNext]_tvars
 TraceAccepted ==
   LET d == TLCGet("stats").diameter IN
